@@ -141,6 +141,7 @@ func scenarioC08(c *Ctx) {
 	}
 	cases = append(cases, reinitCases(c, w, "C08")...)
 	runCases(c, cases)
+	c08Clock(c)
 
 	// (4) replay through the REAL Poll loop: the whole log is on the board, the node starts from an
 	// empty state and must reach the same round state
